@@ -1,6 +1,7 @@
 """C16 Reading files: exact bytes, stream semantics, no interference."""
 import contextlib
 import io
+import os
 import random
 
 from harness import blobs, driver, env
@@ -327,9 +328,89 @@ def summarize(r):
     return repr(r)
 
 
+class MarkerSink(io.RawIOBase):
+    """Output object that checks a sparse file with markers on the fly: zero bytes everywhere,
+    except 16-byte markers (the decimal offset) at every multiple of STEP."""
+    STEP = 64 << 20
+
+    def __init__(self):
+        super().__init__()
+        self.pos = 0
+        self.first_bad = None
+
+    @classmethod
+    def marker(cls, off):
+        return (b'@%014d#' % off)[:16]
+
+    def writable(self):
+        return True
+
+    def write(self, data):
+        data = bytes(data)
+        if self.first_bad is None:
+            start, end = self.pos, self.pos + len(data)
+            k = (start // self.STEP) * self.STEP
+            expect = bytearray(len(data))
+            while k < end:
+                mk = self.marker(k)
+                a, b = max(k, start), min(k + 16, end)
+                if a < b:
+                    expect[a - start:b - start] = mk[a - k:b - k]
+                k += self.STEP
+            if data != bytes(expect):
+                for j in range(len(data)):
+                    if data[j] != expect[j]:
+                        self.first_bad = start + j
+                        break
+        self.pos += len(data)
+        return len(data)
+
+
+def big_add_file_case(counters):
+    """add_file() by file name of a sparse file larger than one ISO9660 extent (the library opens
+    the file itself for every extent), read back before mastering."""
+    import pycdlib
+    import tempfile
+    if not os.path.isdir('/dev/shm'):
+        counters['big_add_file_skipped'] = 1
+        return []
+    vio = []
+    size = 0xfffff800 + 6000
+    fd, path = tempfile.mkstemp(prefix='verif-c16-', dir='/dev/shm')
+    try:
+        with os.fdopen(fd, 'wb') as f:
+            f.truncate(size)
+            k = 0
+            while k < size:
+                f.seek(k)
+                f.write(MarkerSink.marker(k)[:max(0, min(16, size - k))])
+                k += MarkerSink.STEP
+        iso = pycdlib.PyCdlib()
+        iso.new(interchange_level=3)
+        iso.add_file(path, iso_path='/BIG.DAT;1')
+        sink = MarkerSink()
+        iso.get_file_from_iso_fp(sink, blocksize=1 << 20, iso_path='/BIG.DAT;1')
+        counters['big_add_file_bytes'] = sink.pos
+        if sink.pos != size:
+            vio.append({'key': 'extract:length:add_file:multi-extent', 'detail': 'file of %d bytes added by name reads back %d bytes' % (size, sink.pos)})
+        elif sink.first_bad is not None:
+            vio.append({'key': 'extract:bytes:add_file:multi-extent', 'detail': 'file of %d bytes added by name: first wrong byte at offset %d (extent boundary at %d)' % (size, sink.first_bad, 0xfffff800)})
+        iso.close()
+    finally:
+        try:
+            os.unlink(path)
+        except OSError:
+            pass
+    return vio
+
+
 def run_case(i, seed, tier):
     from harness.props import c01
     counters = {}
+    if i == 11:
+        vio = big_add_file_case(counters)
+        return {'verdict': 'violated' if vio else 'held', 'violations': [dict(v, replay={'property': PROPERTY, 'case_seed': -1, 'mode': 'big-add-file'}) for v in vio],
+                'nontrivial': True, 'shape': 'big-add-file', 'sample': {'mode': 'big-add-file'}, 'counters': counters}
     mode = ['opened', 'pending', 'mixed', 'opened', 'pending', 'mixed', 'reused'][i % 7]
     cs = seed * 1000003 + i
     vio, trace = run_program(cs, mode, counters)
@@ -346,5 +427,7 @@ def run_case(i, seed, tier):
 
 def replay(doc):
     from harness.props import c01
+    if doc.get('mode') == 'big-add-file':
+        return big_add_file_case({})
     vio, trace = run_program(doc['case_seed'], doc['mode'], {})
     return c01.dedup(vio)
